@@ -265,6 +265,8 @@ def run(ctx):
            note='negative control: next_taxon as found at the pinned commit returns a threshold-less genome taxon')
     for F in FAMILIES:
         core.run_family(ctx, F())
+    sample = list(RandomDeep().inputs(ctx))[:40] + list(DeepChains().inputs(ctx))[:10] + list(AwkwardValues().inputs(ctx))[:30]
+    core.run_concurrent(ctx, RandomDeep(), sample, secs=3 if ctx.tier == 'quick' else 15, name='concurrent-callers')
     ctx.assumptions += ['distances/thresholds abstracted to ranks (rank r = r/16, exact in float32 and float64)',
                         'the closest match may be any genome at the minimum distance (C09 pins it to the first)']
 
